@@ -412,6 +412,21 @@ def c12_streams(ctx):
         f = r.choice(flagsets)
         s = "".join(r.choice("ab\n\r") for _ in range(r.randint(0, 6)))
         gs.append(Group([Case(p, f, "is_match", s), Case(p, f, "analyze", s)], {"features": features(ast), "input": s, "ast": ast, "flags": f}))
+    # the dot against every kind of line-break-like and space-like character
+    for p in [".", "^.$", "a.b", ".+", "(.)", "[^a].", ".{2}"]:
+        ast = parse_full(p.replace("[^a]", "c"))
+        if "[^a]" in p:
+            ast = ("seq", [("cls", True, [("c", "a")], None), ("dot",)])
+        for f in flagsets:
+            for ch in "\n\r\x0b\x0c\x85\u2028\u2029\t \x00a":
+                for s in [ch, "a" + ch + "b", ch + ch]:
+                    gs.append(Group([Case(p, f, "is_match", s), Case(p, f, "analyze", s)], {"features": set(), "input": s, "ast": ast, "flags": f}))
+    # anchors as bare branches of an alternation after a repeat, and next to quantified terms
+    for p in ["a*(?:^|b)a", "[ab]{0,3}(?:^|c)b", "x\n*(?:^|b)\ny", "x\n*(?:$|b)\ny", "a+(?:$|b)", "(?:a|^)+b", "a*(?:b|$)a", "(?:^a|b)*c", "a?(?:^|$)a"]:
+        ast = parse_escaped(p.replace("\\n", "\n")) if "\\" in p else parse_full(p)
+        for f in flagsets:
+            for s in ["a", "b", "ab", "aa", "x\n\ny", "x\ny", "ba", "x\n\n\ny", "c", "aab", "ac"]:
+                gs.append(Group([Case(p, f, "is_match", s), Case(p, f, "analyze", s)], {"features": features(ast), "input": s, "ast": ast, "flags": f}))
     return gs
 
 
@@ -846,6 +861,8 @@ def c19_patterns(ctx):
         lambda: "(a)(b)\\2\\1", lambda: "(?:(a)b)+\\1", lambda: "(a|ab)(c|bcd)\\2\\1", lambda: "^(a+)\\1$", lambda: "(.)\\1", lambda: "(.)(.)\\2\\1",
         lambda: "(a)(b)(c)(d)(e)(f)(g)(h)(i)(j)\\10", lambda: "(a)(b)(c)(d)(e)(f)(g)(h)(i)(j)\\1" + "0", lambda: "(a)\\11", lambda: "(a)(b)\\12",
         lambda: "(b)?a\\1", lambda: "(?:b|(a))\\1c", lambda: "(a?)\\1b", lambda: "([ab])\\1", lambda: "([ab]+)-\\1",
+        lambda: "^(x)(y)(?:(a)b|a)\\3$", lambda: "(x)(y)(?:(a)b|a)\\3", lambda: "(a)(b)(?:(a)(b)c|ab)\\4\\3", lambda: "(x)?(y)?(?:(a)b|(a))\\3\\4",
+        lambda: "(a)(b)(c)(?:(d)e|d)\\4", lambda: "(x)(?:(y)(z)w|yz)\\3\\2", lambda: "(?:(a)(b)(c)x|abc)+\\3", lambda: "(a)(b)(?:(c)|d)+\\3",
     ]
     return r.choice(shapes)()
 
@@ -1015,8 +1032,10 @@ def c19_streams(ctx):
         ast = parse_simple(p)
         f = r.choice(["", "", "i"])
         alpha = "abABx-" if f == "i" else "abx-cd"
-        if "(c)" in p:
+        if "(c)" in p and "(j)" in p:
             alpha = "abcdefghij01"
+        elif "(y)" in p or "(c)" in p:
+            alpha = "xyzabcdew"
         for _ in range(2):
             s = rand_input(ctx, alpha, 8)
             if r.random() < 0.3 and "(c)" in p:
